@@ -288,6 +288,9 @@ def run(ctx):
                         continue
                     bad.append((n, "%s %s" % (bo[0], rhs)))
                 else:
+                    from .common import sets_default_flags
+                    if sets_default_flags(txt, streams):
+                        continue
                     bad.append((n, txt[:60]))
         for n, what in bad:
             ctx.bad("R02.5", f, "stream-manipulated:%s:%s" % (tag, what[:40]), "as<T>() applies `%s` to the conversion stream: the decimal text given on the command line is no longer read as the number it spells" % what, (f, n.get("ln")))
